@@ -286,6 +286,49 @@ def one_case(ctx, prog, label="gen"):
                 ctx.disagree(f"C08.count.{route}", c, r.prior_count, ans["count"])
 
 
+def fit_rewrite(ctx, prog1, prog2):
+    """the model of a database fit that is read, replaced by another model, committed and read again - on the same Fit
+    object, in the same session and in a new one - is the model that was written last"""
+    try:
+        m1 = gen_comp.run_program(prog1)["root"]
+        m2 = gen_comp.run_program(prog2)["root"]
+        want1, want2 = shape_of(db_rt(m1)), shape_of(db_rt(m2))
+    except Exception:  # noqa: the plain routes are examined by one_case
+        return
+    if want1 == want2 or m1.prior_count == 0 or m2.prior_count == 0:
+        return
+    case = {"program": prog1, "program2": prog2, "label": "fit-rewrite"}
+    engine = sa.create_engine("sqlite://")
+    db.Base.metadata.create_all(engine)
+    s = sa.orm.sessionmaker(bind=engine)()
+    try:
+        fit = db.Fit(id="fit-rewrite", is_complete=False)
+        fit.model = m1
+        s.add(fit)
+        s.commit()
+        first = shape_of(fit.model)
+        fit.model = m2
+        s.commit()
+        second = shape_of(fit.model)
+        s.close()
+        s2 = sa.orm.sessionmaker(bind=engine)()
+        third = shape_of(s2.query(db.Fit).filter(db.Fit.id == "fit-rewrite").one().model)
+        s2.close()
+    except Exception as e:  # noqa
+        ctx.hit("fit-rewrite-raised:" + type(e).__name__)
+        return
+    finally:
+        engine.dispose()
+    ctx.hit("fit-rewrite")
+    for got, want, when in ((first, want1, "read after the first write"), (second, want2, "read on the same Fit object after another model was assigned and committed"),
+                            (third, want2, "read in a new session after another model was assigned and committed")):
+        if got != want:
+            bad = [k for k in ("paths", "descr", "consts", "partition", "count") if got[k] != want[k]]
+            ctx.fail("C08-fit-model-not-last-written", f"Fit.model {when} is not the model that was written", case,
+                     {"differs_in": bad, "got_paths": got["paths"][:5], "want_paths": want["paths"][:5]})
+            return
+
+
 def run(ctx):
     ctx.rule = RULE
     ctx.assumptions = [
@@ -307,8 +350,13 @@ def run(ctx):
         except Exception:
             pass
         one_case(ctx, prog)
+        if ctx.rng.random() < 0.25:
+            simple = dict(allow_pow=False, allow_arith=False, allow_array=False, allow_fixed_obj=False, allow_copy=False)
+            fit_rewrite(ctx, gen_comp.gen_program(ctx.rng, **simple), gen_comp.gen_program(ctx.rng, **simple))
 
 
 def replay(ctx, payload):
     case = payload.get("case") or payload.get("disagreements", [{}])[0].get("case")
+    if case.get("label") == "fit-rewrite":
+        return fit_rewrite(ctx, case["program"], case["program2"])
     one_case(ctx, case["program"], label="replay")
